@@ -1,7 +1,59 @@
-"""Model checking of the code-shaped core model (spec/HtpParser.tla) with the observer clauses as invariants."""
+"""Model checking of the code-shaped core model (spec/HtpParser.tla) with the observer clauses as invariants.
+The set of excused <<clause, site>> pairs is generated from known_findings.txt (HtpKnown.tla in a private copy of spec/)."""
+import os, re, sys
 import vlib
 
+# (MaxTx, MaxCalls, MaxAvail, AutoDestroy, CbFail)
+QUICK = [
+    (2, 4, 1, False, ()),
+    (2, 3, 1, True, ()),
+    (3, 4, 1, False, ()),
+    (2, 3, 1, False, ("request_headers", "response_complete", "transaction_complete", "response_body_data", "request_line")),
+    (2, 3, 1, True, ("request_start", "response_headers", "request_complete", "request_body_data", "response_line")),
+]
+THOROUGH = QUICK + [
+    (1, 4, 2, False, ("request_headers",)),      # found D25 and D26 (sticky STOP / ERROR overwritten), fixed in d96bd29 / 8c453f4
+    (2, 3, 2, False, ()),
+    (2, 4, 2, False, ()),
+    (2, 3, 2, True, ("request_headers", "response_complete", "transaction_complete")),
+    (3, 5, 1, False, ()),
+    (3, 4, 1, True, ("request_headers", "response_body_data", "request_complete", "response_start")),
+]
 
-def run_parser_model(ctx, props):
-    # placeholder until spec/HtpParser.tla is bound: reports zero model states so that no model-checking claim is made from it
-    return {"distinct": 0, "generated": 0, "what": "HtpParser model not run in this revision"}
+
+def run_parser_model(ctx, props, cbfail_ok=True):
+    """Runs the bounded configurations; a violated invariant becomes a violation record of the property.
+    cbfail_ok=False skips configurations whose callbacks may fail (properties not quantified over callback results)."""
+    d = vlib.spec_workdir(ctx)
+    cfgs = [c for c in (QUICK if ctx.quick else THOROUGH) if cbfail_ok or not c[4]]
+    invs = " ".join("Inv_" + p for p in props)
+
+    def one(i):
+        mt, mc, ma, ad, cf = cfgs[i]
+        name = "pmc_%d" % i
+        cfgp = os.path.join(d, name + ".cfg")
+        open(cfgp, "w").write(
+            "CONSTANTS MaxTx = %d  MaxCalls = %d  MaxAvail = %d  AutoDestroy = %s  FixD4 = FALSE  TraceMode = FALSE\n"
+            " CbFail = {%s}\n Known <- KnownSet\nSPECIFICATION Spec\nINVARIANTS %s TypeOK\nVIEW View\nCHECK_DEADLOCK FALSE\n"
+            % (mt, mc, ma, "TRUE" if ad else "FALSE", ", ".join('"%s"' % x for x in cf), invs))
+        return vlib.run_tlc(ctx, "HtpParserMC", cfgp, workers=4 if ctx.quick else 8, timeout=600 if ctx.quick else 3000, xmx="6g" if ctx.quick else "12g",
+                            name=name, cwd=d, coverage=True)
+    res = vlib.pmap(one, range(len(cfgs)), nproc=4 if ctx.quick else 2)
+    distinct = generated = 0
+    never = None
+    for c, r in zip(cfgs, res):
+        if r.error:
+            sys.stdout.write(r.out[-3000:])
+            raise vlib.Infra("model checking HtpParser failed: %s (config %s)" % (r.error, c))
+        distinct += r.distinct; generated += r.generated
+        for inv in r.violated:
+            m = re.search(r"viol \|-> (\{[^}]*\})", r.out[r.out.rfind("State "):])
+            ctx.violations.append({"clause": "Model:" + inv, "sites": [], "cls": "model",
+                                   "what": "TLC violates %s on the bounded model %s; last state viol=%s" % (inv, c, m.group(1) if m else "?"),
+                                   "counterexample_tail": r.out[-6000:]})
+        dead = [a for a, (taken, gen) in r.cover.items() if taken == 0 and a in ("StepBegin", "CbStep", "RetStep", "EndCallStep", "DataEnter")]
+        if dead:
+            never = "actions never taken in config %s: %s" % (c, dead)
+    return {"distinct": distinct, "generated": generated, "vacuous": never,
+            "what": "HtpParser.tla + HtpObs clauses %s as invariants over %d bounded configurations (MaxTx, MaxCalls, MaxAvail, AutoDestroy, CbFail): %s"
+                    % (invs, len(cfgs), [c[:4] + (len(c[4]),) for c in cfgs])}
